@@ -72,6 +72,35 @@ def structured(rng):
     return text, exp
 
 
+CASELEN = ["ı", "ıı", "ŉ", "ŉŉ", "K", "KK", "İ", "İİ", "ǰ", "ΐ", "ẞ", "ß", "ſ", "Ω"]
+MONTHS = ["jan", "may", "march", "december", "oct"]
+ZONES_ = ["EST", "CET", "UTC", "PST", "JST"]
+
+
+def caselen_line(rng):
+    """characters whose lower / upper case has another byte length, on both sides of a month or zone name: the spans found
+    in the case-mapped copy must be translated back character by character"""
+    pieces = [(None, rng.choice(CASELEN)) for _ in range(rng.randint(1, 3))]
+    k = rng.random()
+    if k < 0.5:
+        pieces += [("Number", str(rng.randint(1, 28))), ("Month", rng.choice(MONTHS))]
+        if rng.random() < 0.5:
+            pieces.append(("Number", str(rng.randint(1990, 2030))))
+    else:
+        pieces += [("Number", str(rng.randint(1, 999999))), ("Symbol1", rng.choice(ZONES_))]
+    pieces += [(None, rng.choice(CASELEN)) for _ in range(rng.randint(1, 3))]
+    if rng.random() < 0.3:
+        pieces += [("Number", str(rng.randint(1, 99))), ("Symbol1", rng.choice(ZONES_))]
+    text, exp = "", []
+    for kind, s_ in pieces:
+        if text:
+            text += " "
+        if kind:
+            exp.append((len(text), len(text) + len(s_), kind))
+        text += s_
+    return text, exp
+
+
 def wf_errors(line, ui):
     n = len(line)
     errs = []
@@ -123,7 +152,10 @@ def run(ctx, model_ok):
     for _ in range(ctx.n(2500, 80000)):
         lang = rng.choice(["en", "en", "tr"])
         k = rng.random()
-        if k < 0.45:
+        if k < 0.12:
+            text, exp = caselen_line(rng)
+            cases.append({"lang": "en", "text": text, "exp": exp})
+        elif k < 0.45:
             text, exp = structured(rng)
             cases.append({"lang": lang, "text": text, "exp": exp})
         elif k < 0.9:
